@@ -134,7 +134,9 @@ class MosFile:
         """
         The XML string of the MOS file
         """
-        return ElementTree.tostring(self.xml, encoding='unicode')
+        # ElementTree writes a carriage return in text as a literal character,
+        # which an XML parser reads back as a line feed
+        return ElementTree.tostring(self.xml, encoding='unicode').replace('\r', '&#13;')
 
     def __lt__(self, other) -> bool:
         """
